@@ -280,3 +280,46 @@ func vC11Preempt() {
 		setPreempt(0)
 	}
 }
+
+// H_C11_dropclose: while the rebalance closes the streams, the connection of
+// vBucket 0 drops: its stream ends with a transient cause ("socket closed",
+// "state changed") instead of "stream closed". The rebalance still converges:
+// no crash, the client keeps running, the stream is reopened once on the latest
+// range, and nothing of the abandoned session is left open or requested again.
+func H_C11_dropclose() {
+	setMerge(true)
+	vC11Preempt()
+	c := vC11Setup(nondetBool("dynamic"))
+	fx := c.fx
+	cause := []error{gocbcore.ErrSocketClosed, gocbcore.ErrDCPStreamStateChanged}[choose("cause", 2)]
+	keep := choose("same-range-after", 2) == 1 // the member keeps its range (pure renumbering elsewhere) or moves
+	fx.cl.onClose = func(vb uint16) {
+		obs, ok := fx.s.observers.Load(vb)
+		if ok {
+			e := error(gocbcore.ErrDCPStreamClosed)
+			if vb == 0 {
+				e = cause
+			}
+			spawnEnv(func() { obs.End(models.DcpStreamEnd{VbID: vb}, e) })
+		}
+	}
+	fx.s.Open()
+	setHorizon(int64(5 * time.Minute))
+	if !keep {
+		c.member = 2
+	}
+	c.lastNote = nowNs()
+	opensBefore := len(fx.cl.openCalls)
+	p, _ := expectPanic(func() {
+		fx.s.Rebalance()
+		quiesce()
+	})
+	assert(!p, "a connection drop during the rebalance close does not crash the client")
+	cover("drop-during-close")
+	assert(!vStopClosed(fx.stop), "a rebalance never terminates the client")
+	assert(fx.s.IsOpen(), "the stream is open again")
+	reopen := fx.cl.openCalls[opensBefore:]
+	assert(len(reopen) == 2, "exactly one request per vBucket of the new range, none for the abandoned session")
+	_, n := fx.s.GetMetric()
+	assert(n == 2, "both vBuckets of the new range are streaming")
+}
